@@ -102,6 +102,9 @@ def gen_spec(rng, profile):
         'include_cardinality_in_feature_names': rng.choice(profile.get('card_names', ['True', 'False'])),
         'label_column': wl['label'],
     }
+    if rng.random() < 0.03:
+        # the CLI takes these flags as free strings; other spellings than 'True'/'False' are legal input
+        cli['target_ranking_only'] = rng.choice([cli['target_ranking_only'].lower(), cli['target_ranking_only'].upper()])
     if profile.get('cap'):
         cap = profile['cap'](rng, ncols)
         if cap is not None:
@@ -125,7 +128,7 @@ def gen_spec(rng, profile):
         if rng.random() < 0.4:
             c2['heuristic'] = rng.choice(profile.get('heuristics', ['MI-numba-randomized']))
         if rng.random() < 0.3:
-            c2['minibatch_size'] = max(1, m // 2)
+            c2['minibatch_size'] = max(2, m // 2)
         if rng.random() < 0.3:
             c2['target_ranking_only'] = rng.choice(['True', 'False'])
         spec['more_runs'] = [{'cli': c2}]
@@ -322,7 +325,8 @@ def shrink_candidates(spec, rng=None):
     if cli.get('target_ranking_only') == 'False':
         out.append(with_cli(target_ranking_only='True'))
     m = cli.get('minibatch_size', 1)
-    for m2 in {max(1, m // 2), max(1, m - 1)}:
+    floor = 2       # a correlation on a single row is undefined (scipy refuses it): one-row batches are not generated
+    for m2 in {max(floor, m // 2), max(floor, m - 1)}:
         if m2 != m:
             out.append(with_cli(minibatch_size=m2))
     if spec.get('service_mode') != 'instant':
